@@ -144,14 +144,48 @@ Fixpoint expand (fuel : nat) (w : world) (exp : list var) (k : var) (c : Z)
       end
   end.
 
-Definition sub_fuel : nat := 64.
+(* The code has no bound on the length of a chain or on the nesting of substituted polynomials; each
+   step of either consumes a different settled variable, so 3 + (number of settled variables) steps
+   are enough.  Whether a run would nevertheless hit the end of the fuel is computed separately
+   ([substitute_oof]) and is a distinct outcome for the harness, never a normal-looking value. *)
+Definition sub_fuel (w : world) : nat := 3 + length (settled w).
+
+Fixpoint follow_oof (fuel : nat) (w : world) (exp : list var) (v : value) : bool :=
+  match v with
+  | VPoly _ => false
+  | VVar y =>
+      if memv y (awaiting w) || memv y exp then false
+      else match fuel with
+           | O => true
+           | S f => match lookupv (settled w) y with
+                    | None => false
+                    | Some v' => follow_oof f w (y :: exp) v'
+                    end
+           end
+  end.
+
+Fixpoint expand_oof (fuel : nat) (w : world) (exp : list var) (k : var) : bool :=
+  if memv k exp then false else
+  match fuel with
+  | O => true
+  | S f =>
+      let oof1 := match try_wait w k with None => false | Some v => follow_oof f w exp v end in
+      let '(computed, e) := match try_wait w k with
+                            | None => (false, EVar k)
+                            | Some v => follow f w exp v
+                            end in
+      oof1 || match estimate_end w e with
+              | EVar _ => false
+              | EPoly p => existsb (fun kv => expand_oof f w (k :: exp) (fst kv)) (coeffs p)
+              end
+  end.
 
 (* the loop `for key, value in self.coeffs.items(): expand(key, value)` *)
 Fixpoint subst_terms (w : world) (l : list (var * Z)) : list (var * Z) * Z * list var :=
   match l with
   | [] => ([], 0, [])
   | (k1, v1) :: r =>
-      let '(t1, c1, n1) := expand sub_fuel w [] k1 v1 in
+      let '(t1, c1, n1) := expand (sub_fuel w) w [] k1 v1 in
       let '(t2, c2, n2) := subst_terms w r in
       (t1 ++ t2, c1 + c2, n1 ++ n2)
   end.
@@ -159,6 +193,9 @@ Fixpoint subst_terms (w : world) (l : list (var * Z)) : list (var * Z) * Z * lis
 (* _substitute_known_variables: the new polynomial and not_ready_keys *)
 Definition substitute (w : world) (p : poly) : poly * list var :=
   let '(ts, c0, nr) := subst_terms w (coeffs p) in (mk ts (const p + c0), nr).
+
+Definition substitute_oof (w : world) (p : poly) : bool :=
+  existsb (fun kv => expand_oof (sub_fuel w) w [] (fst kv)) (coeffs p).
 
 (* key.wait() outside try_compute (speculating = false) or under an outer one (speculating = true):
    None = it raises (DeferredCycle, NotReadyError, or the plain "not ready" exception) *)
@@ -193,16 +230,18 @@ Fixpoint list_eqbv (a b : list var) : bool :=
   end.
 
 (* the `while not_ready_keys and rounds < 100` loop (fuel = 100 rounds, then it falls through to the
-   evaluation that reports the cycle): (polynomial, world, raised) *)
-Fixpoint settle_loop (fuel : nat) (w : world) (p : poly) (nr : list var) : poly * world * bool :=
+   evaluation that reports the cycle): (polynomial, world, raised, model out of fuel) *)
+Fixpoint settle_loop (fuel : nat) (w : world) (p : poly) (nr : list var) : poly * world * bool * bool :=
   match fuel with
-  | O => (p, w, false)
+  | O => (p, w, false, false)
   | S f =>
       let '(w', ok) := wait_all w (vars p) nr in
-      if negb ok then (p, w', true) else
+      if negb ok then (p, w', true, false) else
+      let oof := substitute_oof w' p in
       let '(p', nr') := substitute w' p in
-      if list_eqbv nr' nr then (p', w', false) else
-      match nr' with [] => (p', w', false) | _ => settle_loop f w' p' nr' end
+      if oof then (p', w', false, true) else
+      if list_eqbv nr' nr then (p', w', false, false) else
+      match nr' with [] => (p', w', false, false) | _ => settle_loop f w' p' nr' end
   end.
 
 (* sum(key.wait() * value ...) + constant_term, when every term is a number *)
